@@ -283,6 +283,7 @@ func (w *World) execECDSA(q *ecdsaReq) *ecdsaOut {
 		out.dev = kernel.NewDevice(q.dev)
 		rd = out.dev.Reader()
 	}
+	w.armReenter(out.dev)
 	call := func() {
 		if q.reader == rdExplicitGlobal {
 			rd = crand.Reader // the device, installed by withGlobalRand
@@ -1177,6 +1178,7 @@ func (w *World) opSchnorrVariation(step int) {
 func (w *World) runSchnorr(step, key int, msg []byte, cfg kernel.DevCfg, useNil bool) {
 	sg := w.keys[key]
 	dev := kernel.NewDevice(cfg)
+	w.armReenter(dev)
 	var sig []byte
 	var err error
 	var po callOut
